@@ -203,6 +203,14 @@ def check_large(ctx, L, ex):
             if got < complete:
                 ctx.problem("C10:complete-fields-missing", f"{complete} fields are complete in the first {cut} bytes but only {got} were emitted before {obs.outcome['kind']}; {case.type} ({n} bytes)", pl)
                 return
+            if n >= 1024:
+                # sources that know their length (bytes, list, an iterator over them) against the counting iterator
+                for name, src in (("bytes", bytes(prefix)), ("list", list(prefix)), ("iterator", iter(bytes(prefix)))):
+                    o2 = O.run_decode(case.type, prefix, command_code=case.cc, enc=case.enc, strict=strict, source=src)
+                    ctx.count(f"source:{name}:large")
+                    if o2.events != obs.events or outcome_key(o2.outcome) != outcome_key(obs.outcome):
+                        ctx.problem(f"C10:source:{name}", f"decoding the first {cut} of {n} bytes from a {name} source gives {len(o2.events)} events and {o2.outcome['kind']}, from a counting iterator {len(obs.events)} events and {obs.outcome['kind']}; {case.type} {prefix.hex()[:120]}", dict(pl, data=prefix[:4096]))
+                        return
 
 
 def check_frontends(ctx, L, ex):
@@ -252,8 +260,21 @@ def run_shard(ctx):
     ):
         ctx.run_given(st.tuples(strat, picks), lambda ex: check_case(ctx, L, ex), ctx.share(n), name=name)
     ctx.run_given(st.tuples(gen.streams(L, max_pairs=2, rare=False), st.data()), lambda ex: check_frontends(ctx, L, ex), ctx.share(300 if q else 5000), name="frontends")
+    ctx.run_plain(lambda: very_large(ctx, L), "very-large")
     picks6 = st.lists(st.integers(0, 10**6), min_size=6, max_size=6)
     ctx.run_given(st.tuples(gen.messages(L, big=True), picks6), lambda ex: check_large(ctx, L, ex), ctx.share(500 if q else 8000), name="large")
+
+
+def very_large(ctx, L):
+    """Messages whose declared size exceeds 4 KiB / 64 KiB (a response with 4096 resp. 65534 random bytes and a session),
+    judged outside hypothesis: look-ahead on the whole input from a counting source, cuts early, inside and at the end."""
+    cases = gen.huge_messages(L)[:2]
+    for k, case in enumerate(cases):
+        if (k * 5 + 2) % ctx.nshards != ctx.shard:
+            continue
+        n = len(case.data)
+        check_large(ctx, L, (case, [12, 700, n - 40] if n < 10000 else [n - 3]))
+        ctx.count("very-large-messages")
 
 
 def replay(ctx, payload):
